@@ -219,22 +219,23 @@ namespace detail
 		if(bitCount(x) < significantBitCount)
 			return -1;
 
-		genIUType const One = static_cast<genIUType>(1);
+		typedef typename detail::make_unsigned<genIUType>::type keyType;
+		keyType const One = static_cast<keyType>(1);
 		int bitPos = 0;
 
-		genIUType key = x;
+		keyType key = static_cast<keyType>(x);
 		int nBitCount = significantBitCount;
 		int Step = sizeof(x) * 8 / 2;
 		while (key > One)
 		{
-			genIUType Mask = static_cast<genIUType>((One << Step) - One);
-			genIUType currentKey = key & Mask;
+			keyType Mask = static_cast<keyType>((One << Step) - One);
+			keyType currentKey = key & Mask;
 			int currentBitCount = bitCount(currentKey);
 			if (nBitCount > currentBitCount)
 			{
 				nBitCount -= currentBitCount;
 				bitPos += Step;
-				key >>= static_cast<genIUType>(Step);
+				key >>= static_cast<keyType>(Step);
 			}
 			else
 			{
